@@ -1,9 +1,460 @@
-//! C15 (and the environment family of C06): generated Elements transactions / environments.
+//! C15 (and the environment family of C06): Elements environments built from abstract descriptions
+//! (the records of ElementsEnv.tla), every introspection jet run on them, answers in the spec's normal form.
 use crate::env::Env;
 use crate::util::*;
-use simplicity::elements::{self, LockTime, Sequence};
+use serde_json::{json, Value as J};
+use simplicity::elements::bitcoin::hashes::{sha256, Hash};
+use simplicity::elements::confidential;
+use simplicity::elements::taproot::ControlBlock;
+use simplicity::elements::{self, AssetIssuance, LockTime, OutPoint, Sequence, TxIn, TxInWitness, TxOut, TxOutWitness};
+use simplicity::jet::elements::{ElementsEnv, ElementsUtxo};
+use simplicity::jet::Elements;
+use simplicity::node::{CoreConstructible, JetConstructible};
+use simplicity::types::{self, Final};
+use simplicity::{BitIter, BitMachine, Cmr, Value, ValueRef};
+use std::sync::Arc;
 
-/// a small family of environments: (description, environment)
+// ------------------------------------------------------------------ small helpers
+pub fn hex(b: &[u8]) -> String { b.iter().map(|x| format!("{:02x}", x)).collect() }
+pub fn unhex(s: &str) -> Vec<u8> { (0..s.len() / 2).map(|i| u8::from_str_radix(&s[2 * i..2 * i + 2], 16).unwrap()).collect() }
+fn sha(b: &[u8]) -> String { hex(sha256::Hash::hash(b).as_byte_array()) }
+fn bytes_j(b: &[u8]) -> J { json!({"hex": hex(b), "sha": sha(b)}) }
+fn h32(s: &str) -> [u8; 32] { let v = unhex(s); let mut a = [0u8; 32]; a.copy_from_slice(&v); a }
+fn u32_j(x: u32) -> J { json!([x >> 16, x & 0xffff]) }
+fn u32_of(j: &J) -> u32 { ((j[0].as_u64().unwrap() as u32) << 16) | j[1].as_u64().unwrap() as u32 }
+fn u64_j(x: u64) -> J { json!([(x >> 48) & 0xffff, (x >> 32) & 0xffff, (x >> 16) & 0xffff, x & 0xffff]) }
+fn u64_of(j: &J) -> u64 { (0..4).fold(0u64, |a, k| (a << 16) | j[k].as_u64().unwrap()) }
+
+/// a deterministic stream of 32-byte strings
+fn atom(tag: &str, k: u64) -> [u8; 32] { *sha256::Hash::hash(format!("{}-{}", tag, k).as_bytes()).as_byte_array() }
+
+// ------------------------------------------------------------------ atoms: valid confidential commitments
+pub struct Pool { pub assets: Vec<J>, pub values: Vec<J>, pub nonces: Vec<J>, pub keys: Vec<String> }
+
+fn find_commitment(tag: &str, prefixes: [u8; 2], ok: &dyn Fn(&[u8]) -> bool, n: usize) -> Vec<J> {
+    let mut v = vec![];
+    let mut k = 0;
+    while v.len() < n {
+        k += 1;
+        let x = atom(tag, k);
+        for (parity, p) in prefixes.iter().enumerate() {
+            let mut b = vec![*p];
+            b.extend_from_slice(&x);
+            if ok(&b) && v.len() < n && !v.iter().any(|e: &J| e[1] == json!(parity) ) { v.push(json!(["conf", parity, hex(&x)])); }
+            else if ok(&b) && v.len() < n && v.len() >= 2 { v.push(json!(["conf", parity, hex(&x)])); }
+        }
+    }
+    v
+}
+pub fn pool() -> Pool {
+    let assets = find_commitment("asset", [0x0a, 0x0b], &|b| confidential::Asset::from_commitment(b).is_ok(), 4);
+    let values = find_commitment("value", [0x08, 0x09], &|b| confidential::Value::from_commitment(b).is_ok(), 4);
+    let nonces = find_commitment("nonce", [0x02, 0x03], &|b| confidential::Nonce::from_commitment(b).is_ok(), 4);
+    // valid x-only internal keys
+    let mut keys = vec![];
+    let mut k = 0;
+    while keys.len() < 3 {
+        k += 1;
+        let x = atom("key", k);
+        if simplicity::elements::secp256k1_zkp::XOnlyPublicKey::from_slice(&x).is_ok() { keys.push(hex(&x)); }
+    }
+    Pool { assets, values, nonces, keys }
+}
+fn conf_prefix(kind: &str, parity: u64) -> u8 {
+    match kind { "asset" => 0x0a + parity as u8, "value" => 0x08 + parity as u8, _ => 0x02 + parity as u8 }
+}
+fn asset_of(j: &J) -> confidential::Asset {
+    match j[0].as_str().unwrap() {
+        "null" => confidential::Asset::Null,
+        "explicit" => confidential::Asset::Explicit(elements::AssetId::from_byte_array(h32(j[1].as_str().unwrap()))),
+        _ => { let mut b = vec![conf_prefix("asset", j[1].as_u64().unwrap())]; b.extend(unhex(j[2].as_str().unwrap())); confidential::Asset::from_commitment(&b).unwrap() }
+    }
+}
+fn value_of(j: &J) -> confidential::Value {
+    match j[0].as_str().unwrap() {
+        "null" => confidential::Value::Null,
+        "explicit" => confidential::Value::Explicit(u64_of(&j[1])),
+        _ => { let mut b = vec![conf_prefix("value", j[1].as_u64().unwrap())]; b.extend(unhex(j[2].as_str().unwrap())); confidential::Value::from_commitment(&b).unwrap() }
+    }
+}
+fn nonce_of(j: &J) -> confidential::Nonce {
+    match j[0].as_str().unwrap() {
+        "null" => confidential::Nonce::Null,
+        "explicit" => confidential::Nonce::Explicit(h32(j[1].as_str().unwrap())),
+        _ => { let mut b = vec![conf_prefix("nonce", j[1].as_u64().unwrap())]; b.extend(unhex(j[2].as_str().unwrap())); confidential::Nonce::from_commitment(&b).unwrap() }
+    }
+}
+
+// ------------------------------------------------------------------ scripts with null data
+/// ops: ["push", kind, data hex] | ["num", k] | ["reserved"] | ["1negate"]  ->  script bytes after OP_RETURN
+fn null_data_script(ops: &[J]) -> Vec<u8> {
+    let mut s = vec![0x6a];
+    for op in ops {
+        match op[0].as_str().unwrap() {
+            "push" => {
+                let data = unhex(op[2].as_str().unwrap());
+                match op[1].as_u64().unwrap() {
+                    0 => { assert!(data.len() < 0x4c); s.push(data.len() as u8); }
+                    1 => { s.push(0x4c); s.push(data.len() as u8); }
+                    2 => { s.push(0x4d); s.extend((data.len() as u16).to_le_bytes()); }
+                    _ => { s.push(0x4e); s.extend((data.len() as u32).to_le_bytes()); }
+                }
+                s.extend(data);
+            }
+            "num" => s.push(0x50 + op[1].as_u64().unwrap() as u8),
+            "reserved" => s.push(0x50),
+            _ => s.push(0x4f),
+        }
+    }
+    s
+}
+/// the description of a null-data script: what the spec sees (push data replaced by its hash)
+fn null_data_desc(ops: &[J]) -> J {
+    let bytes = null_data_script(ops);
+    let shown: Vec<J> = ops.iter().map(|op| if op[0] == "push" { json!(["push", op[1], sha(&unhex(op[2].as_str().unwrap()))]) } else { op.clone() }).collect();
+    json!({"hex": hex(&bytes), "sha": sha(&bytes), "is_null_data": true, "ops": shown})
+}
+fn plain_spk(b: &[u8]) -> J { json!({"hex": hex(b), "sha": sha(b), "is_null_data": false, "ops": []}) }
+
+// ------------------------------------------------------------------ proofs
+/// syntactically valid proofs of a given size class (the crate only hashes their bytes)
+fn range_proof_bytes(k: u64) -> Vec<u8> {
+    if k == 0 { return vec![]; }
+    // header: has-minimum, no exponent; 8 bytes minimum value; then opaque bytes (at least 65 bytes in all)
+    let mut v = vec![0x20];
+    for i in 0..(2 + k) { v.extend_from_slice(&atom("rangeproof", 10 * k + i)[..]); }
+    v
+}
+fn surjection_proof_bytes(k: u64) -> Vec<u8> {
+    if k == 0 { return vec![]; }
+    // n_inputs = 1, bitmap 0x01, then e0 and one s value
+    let mut v = vec![1, 0, 1];
+    v.extend_from_slice(&atom("surj", k));
+    v.extend_from_slice(&atom("surj2", k));
+    v
+}
+
+// ------------------------------------------------------------------ description -> environment
+pub struct Built { pub env: Env, pub desc: J }
+
+/// Build the crate's environment from a description and return the description completed with the values that
+/// are computed outside the crate under test (txid, issuance-derived hashes).
+pub fn build(desc: &J) -> Built {
+    let mut desc = desc.clone();
+    let mut inputs = vec![];
+    let mut utxos = vec![];
+    for inp in desc["inputs"].as_array().unwrap() {
+        let is = &inp["issuance"];
+        let mut witness = TxInWitness::empty();
+        witness.amount_rangeproof = confidential::RangeProof::from_slice(&unhex(is["amount_proof"]["hex"].as_str().unwrap())).expect("range proof");
+        witness.inflation_keys_rangeproof = confidential::RangeProof::from_slice(&unhex(is["keys_proof"]["hex"].as_str().unwrap())).expect("range proof");
+        // the witness stack: some ordinary items, then the annex (0x50 || data) as the last item if present
+        let mut stack: Vec<Vec<u8>> = inp["stack"].as_array().unwrap().iter().map(|x| unhex(x.as_str().unwrap())).collect();
+        if inp["annex"]["present"] == json!(true) {
+            let mut a = vec![0x50];
+            a.extend(unhex(inp["annex"]["data"]["hex"].as_str().unwrap()));
+            stack.push(a);
+        }
+        witness.script_witness = elements::Witness::from_slice(&stack);
+        let pegin = inp["pegin"].as_str().unwrap();
+        if !pegin.is_empty() {
+            witness.pegin_witness = elements::PeginWitness::new(elements::PeginData {
+                value: 5000,
+                asset_id: elements::AssetId::from_byte_array(atom("pegin-asset", 1)),
+                genesis_hash: elements::bitcoin::BlockHash::from_byte_array(h32(pegin)),
+                claim_script: elements::bitcoin::ScriptBuf::from_bytes(vec![0x51]),
+                transaction: vec![1, 2, 3],
+                merkle_proof: vec![4, 5],
+                referenced_block: elements::bitcoin::BlockHash::from_byte_array(atom("refblock", 1)),
+            });
+        }
+        let issuance = AssetIssuance {
+            asset_blinding_nonce: elements::AssetBlindingNonce::from_byte_array(h32(is["blinding"].as_str().unwrap())),
+            asset_entropy: elements::AssetEntropy::from_byte_array(h32(is["entropy_field"].as_str().unwrap())),
+            amount: value_of(&is["amount"]),
+            inflation_keys: value_of(&is["keys"]),
+        };
+        inputs.push(TxIn {
+            previous_output: OutPoint { txid: elements::Txid::from_byte_array(h32(inp["txid"].as_str().unwrap())), vout: u32_of(&inp["vout"]) },
+            is_pegin: !pegin.is_empty(),
+            script_sig: elements::Script::from(unhex(inp["script_sig"]["hex"].as_str().unwrap())),
+            sequence: Sequence::from_consensus(u32_of(&inp["sequence"])),
+            asset_issuance: issuance,
+            witness,
+        });
+        utxos.push(ElementsUtxo {
+            script_pubkey: elements::Script::from(unhex(inp["utxo"]["spk"]["hex"].as_str().unwrap())),
+            asset: asset_of(&inp["utxo"]["asset"]),
+            value: value_of(&inp["utxo"]["value"]),
+        });
+    }
+    let mut outputs = vec![];
+    for o in desc["outputs"].as_array().unwrap() {
+        outputs.push(TxOut {
+            asset: asset_of(&o["asset"]),
+            value: value_of(&o["value"]),
+            nonce: nonce_of(&o["nonce"]),
+            script_pubkey: elements::Script::from(unhex(o["spk"]["hex"].as_str().unwrap())),
+            witness: TxOutWitness {
+                surjection_proof: confidential::SurjectionProof::from_slice(&unhex(o["surjection_proof"]["hex"].as_str().unwrap())).expect("surjection proof"),
+                rangeproof: confidential::RangeProof::from_slice(&unhex(o["range_proof"]["hex"].as_str().unwrap())).expect("range proof"),
+            },
+        });
+    }
+    let tx = elements::Transaction { version: u32_of(&desc["version"]), lock_time: LockTime::from_consensus(u32_of(&desc["locktime"])), input: inputs, output: outputs };
+    // values computed outside the crate under test
+    desc["txid"] = json!(hex(tx.txid().as_byte_array()));
+    for (k, inp) in tx.input.iter().enumerate() {
+        let is = &inp.asset_issuance;
+        let entropy = if is.asset_blinding_nonce == elements::AssetBlindingNonce::NEW_ISSUANCE {
+            elements::AssetId::generate_asset_entropy(inp.previous_output, elements::ContractHash::from_byte_array(*is.asset_entropy.as_byte_array()))
+        } else {
+            elements::AssetEntropy::from_byte_array(*is.asset_entropy.as_byte_array())
+        };
+        let asset = elements::AssetId::from_entropy(entropy);
+        let token = elements::AssetId::reissuance_token_from_entropy(entropy, matches!(is.amount, confidential::Value::Confidential(..)));
+        desc["inputs"][k]["issuance"]["derived"] = json!({"entropy": hex(entropy.as_byte_array()), "asset": hex(asset.as_byte_array()), "token": hex(token.as_byte_array())});
+    }
+    // control block: leaf version | parity, internal key, path
+    let mut cb = vec![desc["tap"]["leaf_version"].as_u64().unwrap() as u8 | desc["tap"]["parity"].as_u64().unwrap() as u8];
+    cb.extend(unhex(desc["tap"]["internal_key"].as_str().unwrap()));
+    for h in desc["tap"]["path"].as_array().unwrap() { cb.extend(unhex(h.as_str().unwrap())); }
+    let ctrl = ControlBlock::from_slice(&cb).expect("control block");
+    let env = ElementsEnv::new(
+        Arc::new(tx),
+        utxos,
+        desc["ix"].as_u64().unwrap() as u32,
+        Cmr::from_byte_array(h32(desc["script_cmr"].as_str().unwrap())),
+        ctrl,
+        None,
+        elements::BlockHash::from_byte_array(h32(desc["genesis"].as_str().unwrap())),
+    );
+    Built { env, desc }
+}
+
+// ------------------------------------------------------------------ values <-> normal form
+/// unit [], ["L", v], ["R", v], ["P", a, b]; words: <= 16 bits numbers, 32 bits [hi, lo], 64 bits four limbs, else hex
+pub fn norm(v: &ValueRef, ty: &Final) -> J {
+    if let Some(n) = ty.as_word() {
+        let w = v.to_word().expect("word");
+        let bits: Vec<bool> = w.iter().collect();
+        let num = |bs: &[bool]| bs.iter().fold(0u64, |a, b| (a << 1) | *b as u64);
+        return match n {
+            0..=4 => json!(num(&bits)),
+            5 => json!([num(&bits[..16]), num(&bits[16..])]),
+            6 => json!([num(&bits[..16]), num(&bits[16..32]), num(&bits[32..48]), num(&bits[48..])]),
+            _ => json!(hex(&crate::tyval::bytes_from_bits(&bits))),
+        };
+    }
+    if v.is_unit() { return json!([]); }
+    if let Some(l) = v.as_left() { return json!(["L", norm(&l, ty.as_sum().unwrap().0)]); }
+    if let Some(r) = v.as_right() { return json!(["R", norm(&r, ty.as_sum().unwrap().1)]); }
+    let (a, b) = v.as_product().expect("product");
+    let (ta, tb) = ty.as_product().unwrap();
+    json!(["P", norm(&a, ta), norm(&b, tb)])
+}
+fn denorm_bits(j: &J, ty: &Final, out: &mut Vec<bool>) {
+    if let Some(n) = ty.as_word() {
+        let w = 1usize << n;
+        let push_num = |x: u64, width: usize, out: &mut Vec<bool>| { for k in (0..width).rev() { out.push((x >> k) & 1 == 1); } };
+        match n {
+            0..=4 => push_num(j.as_u64().unwrap(), w, out),
+            5 | 6 => for limb in j.as_array().unwrap() { push_num(limb.as_u64().unwrap(), 16, out); },
+            _ => for b in unhex(j.as_str().unwrap()) { push_num(b as u64, 8, out); },
+        }
+        return;
+    }
+    if ty.is_unit() { return; }
+    let (ta, tb) = ty.as_product().expect("argument types are products of words");
+    denorm_bits(&j[1], ta, out);
+    denorm_bits(&j[2], tb, out);
+}
+pub fn denorm(j: &J, ty: &Arc<Final>) -> Value {
+    let mut bits = vec![];
+    denorm_bits(j, ty, &mut bits);
+    let bytes = crate::tyval::bytes_from_bits(&bits);
+    let mut it = BitIter::from(&bytes[..]);
+    Value::from_compact_bits(&mut it, ty).expect("argument value")
+}
+
+// ------------------------------------------------------------------ running one jet
+pub fn jet_by_name(name: &str) -> Elements {
+    // the spec uses the C names of the lock jets
+    let n = match name { "tx_lock_distance" | "tx_lock_duration" | "check_lock_distance" | "check_lock_duration" => format!("broken_do_not_use_{}", name), x => x.to_string() };
+    *Elements::ALL.iter().find(|j| j.to_string() == n).unwrap_or_else(|| panic!("no jet {}", name))
+}
+/// the answer of a jet on an argument in normal form: the normal-form output, ["failed"], or a panic message
+pub fn run_jet(env: &Env, name: &str, arg: &J) -> J {
+    let jet = jet_by_name(name);
+    let r = guarded(|| {
+        types::Context::with_context(|ctx| {
+            let node = crate::prog::CN::jet(&ctx, &jet);
+            let rn = node.finalize_unpruned().expect("one-jet program");
+            let src = rn.arrow().source.clone();
+            let tgt = rn.arrow().target.clone();
+            let input = denorm(arg, &src);
+            let mut mac = BitMachine::for_program(&rn).expect("machine");
+            mac.input(&input).expect("input");
+            match mac.exec(&rn, env) {
+                Ok(v) => norm(&v.as_ref(), &tgt),
+                Err(_) => json!(["failed"]),
+            }
+        })
+    });
+    r.unwrap_or_else(|p| json!(["panic", p]))
+}
+
+/// every (jet, argument) pair the spec covers for an environment with n_in inputs and n_out outputs
+pub fn queries(desc: &J, rng: &mut Rng) -> Vec<(String, J)> {
+    let n_in = desc["inputs"].as_array().unwrap().len() as u32;
+    let n_out = desc["outputs"].as_array().unwrap().len() as u32;
+    let mut q: Vec<(String, J)> = vec![];
+    for n in ["version", "lock_time", "genesis_block_hash", "script_cmr", "transaction_id", "current_index", "tapleaf_version", "internal_key",
+              "num_inputs", "num_outputs", "tx_is_final", "tx_lock_height", "tx_lock_time", "tx_lock_distance", "tx_lock_duration",
+              "current_pegin", "current_prev_outpoint", "current_asset", "current_amount", "current_script_hash", "current_sequence",
+              "current_reissuance_blinding", "current_new_issuance_contract", "current_reissuance_entropy", "current_issuance_asset_amount",
+              "current_issuance_token_amount", "current_issuance_asset_proof", "current_issuance_token_proof", "current_script_sig_hash",
+              "current_annex_hash"] {
+        q.push((n.to_string(), json!([])));
+    }
+    let far = [n_in + 1 + rng.below(5) as u32, 0x10000, 0xffffffff, 0x80000000];
+    for n in ["input_pegin", "input_prev_outpoint", "input_asset", "input_amount", "input_script_hash", "input_sequence", "reissuance_blinding",
+              "new_issuance_contract", "reissuance_entropy", "issuance_asset_amount", "issuance_token_amount", "issuance_asset_proof",
+              "issuance_token_proof", "input_annex_hash", "input_script_sig_hash", "issuance", "issuance_entropy", "issuance_asset", "issuance_token"] {
+        for i in 0..=n_in { q.push((n.to_string(), u32_j(i))); }
+        q.push((n.to_string(), u32_j(*rng.pick(&far))));
+    }
+    for n in ["output_asset", "output_amount", "output_nonce", "output_script_hash", "output_is_fee", "output_surjection_proof", "output_range_proof"] {
+        for i in 0..=n_out { q.push((n.to_string(), u32_j(i))); }
+        q.push((n.to_string(), u32_j(*rng.pick(&far))));
+    }
+    for i in 0..=n_out {
+        let ops = desc["outputs"].get(i as usize).map(|o| o["spk"]["ops"].as_array().map_or(0, |a| a.len())).unwrap_or(0) as u32;
+        for j in 0..=ops { q.push(("output_null_datum".to_string(), json!([0, i, 0, j]))); }
+        q.push(("output_null_datum".to_string(), json!([0, i, 1, 0])));
+    }
+    let plen = desc["tap"]["path"].as_array().unwrap().len() as u64;
+    for i in 0..=plen { q.push(("tappath".to_string(), json!(i))); }
+    q.push(("tappath".to_string(), json!(255)));
+    let lt = u32_of(&desc["locktime"]);
+    for x in [0u32, 1, lt.wrapping_sub(1), lt, lt.wrapping_add(1), 499_999_999, 500_000_000, 0xffffffff] {
+        q.push(("check_lock_height".to_string(), u32_j(x)));
+        q.push(("check_lock_time".to_string(), u32_j(x)));
+    }
+    let mut seqs: Vec<u64> = desc["inputs"].as_array().unwrap().iter().map(|i| i["sequence"][1].as_u64().unwrap()).collect();
+    seqs.extend([0, 1, 0xffff]);
+    for s in seqs {
+        for x in [s.saturating_sub(1), s, (s + 1).min(0xffff)] {
+            q.push(("check_lock_distance".to_string(), json!(x)));
+            q.push(("check_lock_duration".to_string(), json!(x)));
+        }
+    }
+    // total fee for every explicit asset in the outputs and one absent asset
+    let mut assets: Vec<String> = desc["outputs"].as_array().unwrap().iter().filter(|o| o["asset"][0] == "explicit").map(|o| o["asset"][1].as_str().unwrap().to_string()).collect();
+    assets.push(hex(&atom("absent-asset", 1)));
+    assets.sort(); assets.dedup();
+    for a in assets { q.push(("total_fee".to_string(), json!(a))); }
+    q
+}
+
+/// one environment: the completed description, every answer, and the two observers of the signature hash
+pub fn run_env(desc: &J, rng: &mut Rng) -> J {
+    let built = match guarded(|| build(desc)) { Ok(b) => b, Err(p) => return json!({"ev": "env", "desc": desc, "build": format!("panic: {}", p), "answers": [], "sighash_env": "", "sighash_jet": ""}) };
+    let answers: Vec<J> = queries(&built.desc, rng).into_iter().map(|(n, a)| { let out = run_jet(&built.env, &n, &a); json!([n, a, out]) }).collect();
+    let sighash_env = hex(built.env.c_tx_env().sighash_all().as_byte_array());
+    let sighash_jet = run_jet(&built.env, "sig_all_hash", &json!([]));
+    json!({"ev": "env", "desc": built.desc, "build": "ok", "answers": answers, "sighash_env": sighash_env, "sighash_jet": sighash_jet})
+}
+
+// ------------------------------------------------------------------ random descriptions
+/// explicit / confidential (from the pool) / null; the explicit alternative is evaluated first
+macro_rules! rand_conf {
+    ($rng:expr, $pool:expr, $explicit:expr, $allow_null:expr) => {{
+        let e: J = $explicit;
+        match $rng.below(if $allow_null { 3 } else { 2 }) { 0 => e, 1 => $rng.pick($pool).clone(), _ => json!(["null"]) }
+    }};
+}
+fn rand_bytes(rng: &mut Rng, tag: &str) -> Vec<u8> {
+    let n = *rng.pick(&[0usize, 0, 1, 2, 33, 100, 300]);
+    let mut v = vec![];
+    let mut k = 0;
+    while v.len() < n { k += 1; v.extend_from_slice(&atom(tag, rng.next_u64() % 1000 + k)); }
+    v.truncate(n);
+    v
+}
+fn rand_hash(rng: &mut Rng, tag: &str) -> String { hex(&atom(tag, rng.below(6) as u64)) }
+pub fn gen_desc(rng: &mut Rng, pool: &Pool) -> J {
+    let n_in = *rng.pick(&[0usize, 1, 1, 2, 2, 3, 5]);
+    let n_out = *rng.pick(&[0usize, 1, 2, 2, 3, 6]);
+    let explicit_assets: Vec<String> = (0..3).map(|k| hex(&atom("asset-id", k))).collect();
+    let mut inputs = vec![];
+    for _ in 0..n_in {
+        let sequence: u32 = match rng.below(7) { 0 | 1 => 0xffffffff, 2 => 0xfffffffe, 3 => rng.below(0x10000) as u32, 4 => (1 << 22) | rng.below(0x10000) as u32,
+                                                 5 => 0x80000000 | rng.below(0x500000) as u32, _ => rng.next_u64() as u32 };
+        let kind = rng.below(4);
+        let (blinding, amount, keys) = match kind {
+            0 | 1 => (hex(&[0u8; 32]), json!(["null"]), json!(["null"])),
+            2 => (hex(&[0u8; 32]), rand_conf!(rng, &pool.values, json!(["explicit", u64_j(rng.next_u64() >> rng.below(60))]), true),
+                  rand_conf!(rng, &pool.values, json!(["explicit", u64_j(rng.below(1000) as u64)]), true)),
+            _ => (rand_hash(rng, "blinding"), rand_conf!(rng, &pool.values, json!(["explicit", u64_j(rng.below(100000) as u64)]), true), if rng.chance(1, 4) { json!(["explicit", u64_j(7)]) } else { json!(["null"]) }),
+        };
+        // ordinary witness items; an item starting with 0x50 in a non-final position is not an annex
+        let n_items = rng.below(3);
+        let stack: Vec<String> = (0..n_items).map(|k| if k + 1 < n_items && rng.chance(1, 4) { "50aa".to_string() } else { let mut b = rand_bytes(rng, &format!("stack{}", k)); if b.first() == Some(&0x50) { b[0] = 0x51; } hex(&b) }).collect();
+        inputs.push(json!({
+            "txid": rand_hash(rng, "prev-txid"), "vout": u32_j(if rng.chance(1, 5) { 0xffffffff } else { rng.below(4) as u32 }), "sequence": u32_j(sequence),
+            "pegin": if rng.chance(1, 4) { rand_hash(rng, "parent-genesis") } else { String::new() },
+            "issuance": {"blinding": blinding, "entropy_field": rand_hash(rng, "entropy"), "amount": amount, "keys": keys,
+                         "amount_proof": bytes_j(&range_proof_bytes(rng.below(3) as u64)), "keys_proof": bytes_j(&range_proof_bytes(rng.below(3) as u64))},
+            "stack": stack,
+            "annex": {"present": rng.chance(1, 3), "data": bytes_j(&rand_bytes(rng, "annex"))},
+            "script_sig": bytes_j(&rand_bytes(rng, "scriptsig")),
+            "utxo": {"asset": rand_conf!(rng, &pool.assets, json!(["explicit", rng.pick(&explicit_assets)]), true),
+                     "value": rand_conf!(rng, &pool.values, json!(["explicit", u64_j(rng.next_u64() >> rng.below(64))]), true),
+                     "spk": bytes_j(&rand_bytes(rng, "utxo-spk"))},
+        }));
+    }
+    let mut outputs = vec![];
+    for _ in 0..n_out {
+        let spk = match rng.below(6) {
+            0 | 1 => plain_spk(&[]),
+            2 => { let mut b = rand_bytes(rng, "spk"); if b.first() == Some(&0x6a) { b[0] = 0x51; } plain_spk(&b) }
+            3 => null_data_desc(&[]),
+            4 => {
+                let ops: Vec<J> = (0..rng.below(5)).map(|_| match rng.below(6) {
+                    0 => json!(["push", 0, hex(&rand_bytes(rng, "pd")[..].iter().take(0x4b).cloned().collect::<Vec<u8>>())]),
+                    1 => json!(["push", 1, hex(&rand_bytes(rng, "pd1")[..].iter().take(200).cloned().collect::<Vec<u8>>())]),
+                    2 => json!(["push", 2, hex(&rand_bytes(rng, "pd2"))]),
+                    3 => json!(["num", 1 + rng.below(16)]),
+                    4 => json!(["reserved"]),
+                    _ => json!(["1negate"]),
+                }).collect();
+                null_data_desc(&ops)
+            }
+            // OP_RETURN followed by something that is not push-only, or a truncated push: not null data
+            _ => plain_spk(&rng.pick(&[vec![0x6au8, 0x61], vec![0x6a, 0x05, 0x01], vec![0x6a, 0x4c], vec![0x6a, 0x4e, 0x01, 0x00]]).clone()),
+        };
+        outputs.push(json!({
+            "asset": rand_conf!(rng, &pool.assets, json!(["explicit", rng.pick(&explicit_assets)]), true),
+            "value": rand_conf!(rng, &pool.values, json!(["explicit", u64_j(if rng.chance(1, 6) { u64::MAX - rng.below(3) as u64 } else { rng.next_u64() >> rng.below(64) })]), true),
+            "nonce": rand_conf!(rng, &pool.nonces, json!(["explicit", rand_hash(rng, "nonce")]), true),
+            "spk": spk,
+            "surjection_proof": bytes_j(&surjection_proof_bytes(rng.below(3) as u64)),
+            "range_proof": bytes_j(&range_proof_bytes(rng.below(3) as u64)),
+        }));
+    }
+    let locktime: u32 = match rng.below(5) { 0 => 0, 1 => rng.below(700_000) as u32, 2 => 499_999_999 + rng.below(3) as u32, 3 => 500_000_000 + rng.below(1_000_000_000) as u32, _ => rng.next_u64() as u32 };
+    let path: Vec<String> = (0..*rng.pick(&[0usize, 0, 1, 2, 5])).map(|k| hex(&atom("tappath", k as u64))).collect();
+    json!({
+        "version": u32_j(*rng.pick(&[0u32, 1, 2, 2, 2, 3, 0xffffffff])), "locktime": u32_j(locktime),
+        "ix": if n_in == 0 || rng.chance(1, 12) { n_in + rng.below(2) } else { rng.below(n_in) },
+        "genesis": rand_hash(rng, "genesis"), "script_cmr": rand_hash(rng, "script-cmr"), "txid": "",
+        "tap": {"leaf_version": *rng.pick(&[0xbeu64, 0xbe, 0xc0, 0xc4]), "parity": rng.below(2), "internal_key": rng.pick(&pool.keys), "path": path},
+        "inputs": inputs, "outputs": outputs,
+    })
+}
+
+/// a small family of environments for C06: (description, environment)
 pub fn env_family(rng: &mut Rng, n: usize) -> Vec<(String, Env)> {
     let mut v = vec![("dummy".to_string(), crate::env::dummy())];
     for k in 0..n {
@@ -11,6 +462,50 @@ pub fn env_family(rng: &mut Rng, n: usize) -> Vec<(String, Env)> {
         let seq = match k % 4 { 0 => Sequence::MAX, 1 => Sequence::ZERO, 2 => Sequence::from_height(rng.below(60_000) as u16), _ => Sequence::from_512_second_intervals(rng.below(60_000) as u16) };
         v.push((format!("locktime={:?} sequence={:?}", lt, seq), crate::env::dummy_with(lt, seq)));
     }
-    let _: Option<elements::Transaction> = None;
+    // generated transactions (inputs/outputs, issuances, pegins, confidential and explicit values, annex, taproot paths)
+    let p = pool();
+    let mut k = 0;
+    while k < n {
+        let d = gen_desc(rng, &p);
+        let n_in = d["inputs"].as_array().unwrap().len() as u64;
+        if d["ix"].as_u64().unwrap() >= n_in { continue; }
+        let summary = format!("generated: {} inputs, {} outputs, ix {}", n_in, d["outputs"].as_array().unwrap().len(), d["ix"]);
+        if let Ok(b) = guarded(|| build(&d)) { v.push((summary, b.env)); k += 1; }
+    }
     v
+}
+
+// ------------------------------------------------------------------ entry points
+/// impl -> spec: random environments
+pub fn record(runs: usize, path: &str) {
+    let mut rng = Rng::from_env(15);
+    let mut out = Out::file(path);
+    let p = pool();
+    for _ in 0..runs {
+        let d = gen_desc(&mut rng, &p);
+        out.emit(&run_env(&d, &mut rng));
+    }
+    out.flush();
+}
+/// spec -> impl: descriptions emitted by TLC
+pub fn replay(cases: &str, path: &str) {
+    let mut rng = Rng::from_env(151);
+    let mut out = Out::file(path);
+    for d in read_ndjson(cases) { out.emit(&run_env(&d, &mut rng)); }
+    out.flush();
+}
+/// atoms for the TLC enumeration: valid commitments, keys, byte strings and scripts with their hashes
+pub fn atoms(path: &str) {
+    let p = pool();
+    let j = json!({
+        "assets": p.assets, "values": p.values, "nonces": p.nonces, "keys": p.keys,
+        "bytes": [bytes_j(&[]), bytes_j(&[0x51]), bytes_j(&atom("bytes", 1).repeat(4)[..100])],
+        "rangeproofs": [bytes_j(&range_proof_bytes(0)), bytes_j(&range_proof_bytes(1))],
+        "surjectionproofs": [bytes_j(&surjection_proof_bytes(0)), bytes_j(&surjection_proof_bytes(1))],
+        "spks": [plain_spk(&[]), plain_spk(&[0x51, 0x20]), null_data_desc(&[]),
+                 null_data_desc(&[json!(["push", 0, "010203"]), json!(["num", 16]), json!(["reserved"]), json!(["1negate"]), json!(["push", 1, "aa"])]),
+                 plain_spk(&[0x6a, 0x61])],
+        "hashes": (0..6).map(|k| hex(&atom("h", k))).collect::<Vec<_>>(),
+    });
+    std::fs::write(path, serde_json::to_string(&j).unwrap()).unwrap();
 }
